@@ -93,6 +93,8 @@ class AbsEval(ConstEval):
             return self.branch(v, None)
         if isinstance(v, AObj):
             return True
+        if isinstance(v, FuncRef) or (isinstance(v, Opaque) and (v.what == "lambda" or v.what.startswith("class "))) or (isinstance(v, tuple) and v and v[0] in ("partial", "getter", "boundfunc")):
+            return True
         return super().truth(v)
 
     def branch(self, term, node):
@@ -314,7 +316,7 @@ class AbsEval(ConstEval):
         if not isinstance(e.func, (ast.Name, ast.Attribute)) or (isinstance(e.func, ast.Name) and e.func.id in env and (not isinstance(env[e.func.id], Opaque) or env[e.func.id].what == "lambda")):
             f = self.eval(e.func, env, mod)
             if isinstance(f, FuncRef) or (isinstance(f, Opaque) and f.what == "lambda") or (isinstance(f, tuple) and f and f[0] in ("boundfunc", "getter", "partial")) or f in (float, int, str, bool, len, abs, bytes):
-                if (f.mod, f.node.name) in self.func_hooks if isinstance(f, FuncRef) else False:
+                if isinstance(f, FuncRef):
                     return self.call_func(f, self.eval_args(e, env, mod), {k.arg: self.eval(k.value, env, mod) for k in e.keywords if k.arg})
                 return self.apply_value(f, self.eval_args(e, env, mod), mod)
         if ftxt.startswith(("_LOGGER.", "logging.", "_logger.")):
